@@ -155,7 +155,7 @@ def main():
             {"name": "plans", "path": "checks/plans.py", "serves_properties": ["C01"], "kind_free_text": "Plans.tla model check (finds F17) + replay of plan/sub-plan ownership transfer into the real Workflow (Layer G); library called by the C01 check"},
             {"name": "schedcache", "path": "checks/schedcache.py", "serves_properties": ["C10", "C11", "C12"], "kind_free_text": "SchedCache.tla model check (cache = definition whenever nothing is flagged; finds F1 and F2 in their pre-fix variants) + replay of graph-modification sequences into the real Workflow + Scheduler (Layer G); library called by the C10, C11 and C12 checks"},
             {"name": "defer", "path": "checks/defer.py", "serves_properties": ["C02", "C03", "C10"], "kind_free_text": "Defer.tla model check (NoLostWakeup, defer cap, Settles under fairness; finds the BUILT-only re-check variant) + replay of amend / declare / confirm / complete interleavings into the real Workflow (Layer G); library called by the C02, C03 and C10 checks"},
-            {"name": "watchsets", "path": "checks/watchsets.py", "serves_properties": ["C14"], "kind_free_text": "WatchSets.tla model check (Complete, DeletedAbsent, UpdatedPresent; finds the cancelling-pair variant) + replay of event sequences into the real Watcher.record_change (Layer G); library called by the C14 check"},
+            {"name": "watchsets", "path": "checks/watchsets.py", "serves_properties": ["C09", "C14"], "kind_free_text": "WatchSets.tla model check (Complete, DeletedAbsent, UpdatedPresent; finds the cancelling-pair variant) + replay of event sequences into the real Watcher.record_change (Layer G); library called by the C09 and C14 checks"},
             {"name": "cleanup", "path": "checks/cleanup.py", "serves_properties": ["C06", "C07"], "kind_free_text": "Cleanup.tla model check over the whole configuration family (only deleted nodes lose their file, modified files kept, survivors held by something attached; the strict form fails: F9) + replay of sampled configurations into the real Workflow, delete_detached and remove_deletable_files on a real directory (Layer G); library called by the C06 and C07 checks"},
             {"name": "recycle", "path": "checks/recycle.py", "serves_properties": ["C01"], "kind_free_text": "Recycle.tla model check + replay of plan re-execution sequences into the real Workflow (Layer G); library called by the C01 check"},
         ],
